@@ -28,6 +28,7 @@ ASSUMPTIONS = [
 BOUND = {"quick": "256 subsets x 3 locations (max_line_length); 93 subsets x 3 locations x 2 other keys; 85 histories x 2 modes", "thorough": "256 subsets for every key"}
 FLOOR = {"quick": 800, "thorough": 2000}
 CHUNK = 1
+TIMEOUT = 900  # per case; fresh child processes are slow when the machine is loaded
 
 SOURCES = ["home", "proj", "a", "a_toml", "ab", "extra", "override", "inline"]
 KEYS = ["mll", "mal", "excl"]
